@@ -9,6 +9,7 @@ Real: every C*/CMutable* class of bitcoin.core, SignatureHash, VerifyScript.   S
 """
 import copy
 import itertools
+import os
 import struct
 
 from ref import wire as RW
@@ -201,6 +202,14 @@ class Obj(Engine):
                 steps = [{'t': 0.0, 'prio': 0, 'party': 0, 'op': 'new', 'args': init}, {'t': 0.0, 'prio': 0, 'party': 0, 'op': 'new', 'args': init2}]
                 steps += [{'t': 0.0, 'prio': 0, 'party': 0, 'op': A[k]['op'], 'args': A[k]} for k in combo]
                 plans.append({'engine': self.name, 'property': [prop], 'config': {'systematic': list(combo)}, 'steps': steps})
+        # objects that arrive from ANOTHER interpreter process (a worker, a file written earlier): built and
+        # used there under another hash seed, pickled, restored here
+        for k, spec in enumerate((init['spec'], init2['spec'])):
+            plans.append({'engine': self.name, 'property': [prop], 'config': {'systematic': 'cross-process'}, 'steps': [
+                {'t': 0.0, 'prio': 0, 'party': 0, 'op': 'new', 'args': init},
+                {'t': 0.0, 'prio': 0, 'party': 0, 'op': 'xproc', 'args': {'op': 'xproc', 'spec': spec, 'mutable': bool(k), 'hashseed': 4242 + k}},
+                {'t': 0.0, 'prio': 0, 'party': 0, 'op': 'xproc', 'args': {'op': 'xproc', 'spec': spec, 'mutable': not k, 'hashseed': 7 + k}},
+                {'t': 0.0, 'prio': 0, 'party': 0, 'op': 'ids', 'args': {'op': 'ids', 'h': 1}}]})
         return plans
 
     # ------------------------------------------------------------------ execution
@@ -511,6 +520,35 @@ class Obj(Engine):
             self.interacted = True
             ctx.probe('%s.%s' % (op, kind))
             log('%s/%s' % (kind, part), [hidx, k2])
+            return k2
+        if op == 'xproc':
+            import pickle
+            import subprocess
+            import sys
+            import json as _json
+            code = ('import sys, json, pickle; sys.path.insert(0, %r); sys.path.insert(0, %r)\n'
+                    'from sim import conv\n'
+                    'spec = json.loads(sys.stdin.read())\n'
+                    'tx = conv.tx_from_spec(spec, %r)\n'
+                    'tx.GetHash(); tx.GetTxid(); hash(tx); s = {tx}\n'
+                    'sys.stdout.buffer.write(pickle.dumps(tx))\n') % (seams.REPO, os.path.dirname(os.path.dirname(os.path.abspath(__file__))), bool(a['mutable']))
+            env = dict(os.environ, PYTHONHASHSEED=str(a['hashseed']), VERIF_REPO=seams.REPO)
+            pr = subprocess.run([sys.executable, '-c', code], input=_json.dumps(a['spec']).encode(), capture_output=True, env=env, timeout=120)
+            if pr.returncode != 0:
+                raise RuntimeError('HARNESS: helper process failed: %s' % pr.stderr[-300:])
+            try:
+                new = pickle.loads(pr.stdout)
+            except Exception as e:
+                ctx.probe('cross-process-object-refused')
+                log('refused', type(e).__name__)
+                return None
+            m2 = copy.deepcopy(a['spec'])
+            if not RW.tx_has_witness(m2):
+                m2['wit'] = None if not a['mutable'] else m2.get('wit')
+            k2 = self._add(H('tx', bool(a['mutable']), new, m2))
+            self.interacted = True
+            ctx.fault('object-from-another-process')
+            log('restored', k2)
             return k2
         if op == 'retype':
             # the containers of a mutable transaction are whatever sequence the caller handed in:
